@@ -214,12 +214,21 @@ type ExecResult struct {
 // on a fresh AccountDB opened at parentRoot. The process-global height is set to parentHeight
 // first, as it is when a node verifies the child of its head. Nothing is written to disk.
 func Exec(parentRoot common.Hash, parentHeight uint64, header *types.BlockHeader, txs []*types.Transaction, situation string) (res ExecResult) {
+	return ExecWith(parentRoot, parentHeight, header, txs, situation, nil)
+}
+
+// ExecWith is Exec with a hook that may read from the fresh state object before the block is
+// executed (to vary the order in which accounts are first touched).
+func ExecWith(parentRoot common.Hash, parentHeight uint64, header *types.BlockHeader, txs []*types.Transaction, situation string, pre func(*account.AccountDB)) (res ExecResult) {
 	st, err := middleware.AccountDBManagerInstance.GetAccountDBByHash(parentRoot)
 	if err != nil {
 		res.Panic = fmt.Errorf("open state %s: %v", parentRoot.Hex(), err)
 		return
 	}
 	common.SetBlockHeight(parentHeight)
+	if pre != nil {
+		pre(st)
+	}
 	list := make([]*types.Transaction, len(txs))
 	for i, tx := range txs { // the executor sorts its list in place; keep the caller's slice intact
 		c := *tx
